@@ -283,3 +283,7 @@ PROPERTY = Property(
         "'identical result' is read as bit-identical",
     ],
 )
+
+from vf import opt as _opt  # noqa: E402
+
+PROPERTY.clauses.append(_opt.optimised("C03", next(c for c in PROPERTY.clauses if c.name == "encodings-agree"), quick=64, thorough=640))
